@@ -81,3 +81,18 @@ TABLE['C11'] = {
     'level_text': 'Deductive proof, for all patterns (any number of ** runs) and all paths, that PathGlob._match_base, _match_glob_run, _match_glob_runs and match return yes exactly on the documented glob semantics (soundness and completeness of the first-fit strategy, by induction lemmas) and never only where no descendant can match; _is_glob classifies exactly the fnmatch metacharacters. Compile step and file-system walk are cross-checked bounded only.',
     'level_note': 'Trusted: PyVC, z3, the recursive semantic definitions. Assumed: fnmatch per-component behaviour, termination. Bounded only: constructor/_compile_glob, find_files walk.',
 }
+
+TABLE['C09'] = {
+    'modules': ['contracts.env'],
+    'level': 'proof',
+    'assumptions': [
+        'dict library contract (pyvc/dictmodel.py): pointwise updates; iteration yields exactly the present keys; cross-checked by the bounded operation-sequence run on the real class',
+        'the invariant is proved at an arbitrary variable name x (ghost constant): sound because every map is only updated pointwise',
+        'variable names and values are str (the class raises TypeError otherwise)',
+    ],
+    'trusted_base': ['PyVC (pyvc/*.py) incl. the dict model', 'z3 5.1.0'],
+    'not_covered': ['Environment.save/load field-by-field inverse and the version upgrade chain (bounded run only, see evidence.bounded)',
+                    'toolchain replay after reload, platform/tool detection, driver frame conditions'],
+    'level_text': 'Deductive proof that every public mutator of EnvVarDict (the overridden ones from their real source, the inherited ones from dict\'s library contract) preserves "changes applied to initial == current" for all maps and all keys, that __init__/from_json establish it, and that the lazily recomputed changes of a reloaded object are exactly the differences; the inherited |= defect this exposed was repaired (fix commit).',
+    'level_note': 'Trusted: PyVC and its dict model, z3. Not covered deductively: Environment.save/load and the upgrade chain (bounded), toolchain replay.',
+}
